@@ -69,6 +69,12 @@ func errClass(err error) string {
 	if errors.Is(err, errStop) {
 		return "stop"
 	}
+	if errors.Is(err, nc.ErrWrite) {
+		return "write"
+	}
+	if errors.Is(err, context.Canceled) {
+		return "ctx"
+	}
 	var sp *stanza.Error
 	if errors.As(err, &sp) && sp != nil {
 		return "stanza:" + string(sp.Condition)
@@ -95,8 +101,12 @@ func errClass(err error) string {
 // ---- negotiators -------------------------------------------------------------------------
 
 func negotiator(ws bool, lang string, feats ...xmpp.StreamFeature) xmpp.Negotiator {
+	return negotiatorTee(ws, lang, nil, nil, feats...)
+}
+
+func negotiatorTee(ws bool, lang string, teeIn, teeOut io.Writer, feats ...xmpp.StreamFeature) xmpp.Negotiator {
 	cfg := func(*xmpp.Session, *xmpp.StreamConfig) xmpp.StreamConfig {
-		return xmpp.StreamConfig{Lang: lang, Features: feats}
+		return xmpp.StreamConfig{Lang: lang, Features: feats, TeeIn: teeIn, TeeOut: teeOut}
 	}
 	if ws {
 		return websocket.Negotiator(cfg)
@@ -317,7 +327,9 @@ func runHdr(r *common.Run, c hdrCase, class string) {
 			// our header answers an initiator: parse it as an initiator would
 			s2, _ = xmpp.NewSession(context.Background(), loc, orig, conn2, st, negotiator(c.ws, ""))
 		} else {
-			s2, _ = xmpp.NewSession(context.Background(), jid.JID{}, jid.JID{}, conn2, st|xmpp.Received, negotiator(c.ws, ""))
+			// (a receiving entity that expects exactly these addresses: the header must
+			// be accepted for its information to be recorded)
+			s2, _ = xmpp.NewSession(context.Background(), loc, orig, conn2, st|xmpp.Received, negotiator(c.ws, ""))
 		}
 	})
 	if p != "" {
@@ -378,6 +390,12 @@ type negCase struct {
 	recv, ws, s2s bool
 	loc, orig     string   // addresses the session is created with ("" = not known)
 	hdrs          []string // raw bytes of the peer's successive headers
+	// hostile environment (operation "nege"): tee: StreamConfig.TeeIn/TeeOut are set;
+	// budget >= 0: the connection accepts that many writes and fails every later one;
+	// cancel >= 0: the context is done before the header with that index is awaited
+	env            bool
+	tee            bool
+	budget, cancel int
 }
 
 func infoStr(i stream.Info) string {
@@ -430,13 +448,36 @@ func runNeg(r *common.Run, c negCase, class string) {
 			chunks = append(chunks, nc.S(featuresXML(c.ws, sel)))
 		}
 	}
+	ctx, cancelCtx := context.WithCancel(context.Background())
+	defer cancelCtx()
+	if c.env && c.cancel >= 1 {
+		// the context is done before header #cancel is awaited: cancel when the chunk that
+		// precedes that header (the feature selection of the previous stream) is delivered
+		k := 2*c.cancel - 1
+		if k < len(chunks) {
+			inner := chunks[k]
+			chunks[k] = nc.Chunk{Dyn: func([]byte) []byte { cancelCtx(); return inner.Static }}
+		}
+	}
+	if c.env && c.cancel == 0 {
+		cancelCtx()
+	}
 	conn := nc.NewConn(chunks...)
+	if c.env && c.budget >= 0 {
+		conn.FailWriteCall = c.budget + 1
+	}
+	var teeIn, teeOut bytes.Buffer
+	neg := negotiator(c.ws, "", feat)
+	if c.env && c.tee {
+		neg = negotiatorTee(c.ws, "", &teeIn, &teeOut, feat)
+	}
 	var err error
+	var sess *xmpp.Session
 	p := common.Recover(func() {
 		if c.recv {
-			_, err = xmpp.NewSession(context.Background(), loc, orig, conn, st|xmpp.Received, negotiator(c.ws, "", feat))
+			sess, err = xmpp.NewSession(ctx, loc, orig, conn, st|xmpp.Received, neg)
 		} else {
-			_, err = xmpp.NewSession(context.Background(), loc, orig, conn, st, negotiator(c.ws, "", feat))
+			sess, err = xmpp.NewSession(ctx, loc, orig, conn, st, neg)
 		}
 	})
 	// jid table of every to/from value that occurs
@@ -480,6 +521,16 @@ func runNeg(r *common.Run, c negCase, class string) {
 		role = "r"
 	}
 	line := fmt.Sprintf("neg %s %s %s %s %s %s %s", role, common.B(c.ws), common.B(c.s2s), hx(c.loc), hx(c.orig), common.Join(tl, ","), strings.Join(toks, " "))
+	if c.env {
+		b, k := "-", "-"
+		if c.budget >= 0 {
+			b = fmt.Sprint(c.budget)
+		}
+		if c.cancel >= 0 {
+			k = fmt.Sprint(c.cancel)
+		}
+		line = fmt.Sprintf("nege %s %s %s %s %s %s %s %s %s %s", role, common.B(c.ws), common.B(c.s2s), hx(c.loc), hx(c.orig), common.Join(tl, ","), common.B(c.tee), b, k, strings.Join(toks, " "))
+	}
 	if p != "" {
 		r.Line(line, "PANIC")
 		r.Case(line, true, class+":panic")
@@ -513,12 +564,52 @@ func runNeg(r *common.Run, c negCase, class string) {
 	if ec != "stop" {
 		verdicts = append(verdicts, "err:"+ec)
 	}
+	// the addresses the session reports when the constructor returns
+	finalTo, finalFrom := "?", "?"
+	if sess != nil {
+		finalTo, finalFrom = sess.In().To.String(), sess.In().From.String()
+	}
+	verdicts = append(verdicts, "final:"+hx(finalTo)+","+hx(finalFrom))
 	obs := strings.Join(verdicts, " ")
 	r.Line(line, obs)
 	r.Case(line, true, class+":"+ec)
+	lines := []string{r.Prop + " " + line}
+
+	// ---- oracle: a refused header never replaces the established addresses ----
+	if sess != nil {
+		wantTo, wantFrom := loc.String(), orig.String()
+		if !c.recv {
+			wantTo, wantFrom = orig.String(), loc.String()
+		}
+		if n := len(snaps); n > 0 {
+			wantTo, wantFrom = snaps[n-1].in.To.String(), snaps[n-1].in.From.String()
+		}
+		// a header that passed all checks but whose answer could not be written, or after
+		// which the session was stopped, is an accepted header: only refusals count
+		refused := ec != "stop" && ec != "write" && ec != "nil"
+		if refused && (finalTo != wantTo || finalFrom != wantFrom) {
+			r.Fail("refused-header-keeps-addresses", "in-info:"+strings.SplitN(ec, ":", 2)[0], lines,
+				fmt.Sprintf("the header was refused (%s) but the session now reports To=%q From=%q, established were To=%q From=%q", ec, finalTo, finalFrom, wantTo, wantFrom))
+		}
+		if sess.LocalAddr().String() != finalTo || sess.RemoteAddr().String() != finalFrom {
+			r.Fail("refused-header-keeps-addresses", "localaddr-differs-from-in", lines, "LocalAddr/RemoteAddr differ from In().To/From")
+		}
+	}
+	if c.env && c.tee {
+		if !bytes.Equal(teeOut.Bytes(), conn.Written()) {
+			r.Fail("tee-faithful", "out", lines, fmt.Sprintf("TeeOut got %q, the connection %q", teeOut.String(), conn.Written()))
+		}
+		if !bytes.Equal(teeIn.Bytes(), conn.R.Bytes()) {
+			r.Fail("tee-faithful", "in", lines, fmt.Sprintf("TeeIn got %q, the connection delivered %q", teeIn.String(), conn.R.String()))
+		}
+	}
+	if c.env {
+		// with a hostile environment the generator's ground truth for acceptance does not apply
+		return
+	}
 
 	// ---- oracle (independent of the model), on well-understood inputs only: see checkNeg
-	checkNeg(r, c, snaps, ec, []string{r.Prop + " " + line})
+	checkNeg(r, c, snaps, ec, lines)
 }
 
 // hdrFacts is what the generator knows about a header it built (ground truth for the
@@ -1282,6 +1373,31 @@ func Run(r *common.Run) error {
 		}
 	}
 
+	// ---- header exchange in a hostile environment: tee, write failures, cancellation ----
+	for _, ws := range []bool{false, true} {
+		for _, recv := range []bool{false, true} {
+			from, to := locA, origA
+			if recv {
+				from, to = origA, locA
+			}
+			good := mkHdr(ws, hv{open: true, version: "1.0", xmlns: "jabber:client", id: "s1", to: to, from: from})
+			bad := mkHdr(ws, hv{open: true, version: "1.0", xmlns: "jabber:client", id: "s1", to: to, from: "other.example"})
+			oldv := mkHdr(ws, hv{open: true, version: "0.9", xmlns: "jabber:client", id: "s1", to: "other.example", from: from})
+			for _, hs := range [][]string{{good}, {good, good}, {good, good, good}, {good, bad}, {bad}, {good, oldv}, {oldv}} {
+				for _, tee := range []bool{false, true} {
+					for b := -1; b <= 5; b++ {
+						for k := -1; k <= 2; k++ {
+							if !tee && b < 0 && k < 0 {
+								continue
+							}
+							runNeg(r, negCase{recv: recv, ws: ws, s2s: false, loc: locA, orig: origA, hdrs: hs, env: true, tee: tee, budget: b, cancel: k}, "neg-env")
+						}
+					}
+				}
+			}
+		}
+	}
+
 	// ---- bind, initiating side ----
 	locals := []string{"user@example.net/home", "user@example.net", "user@example.net/x'y&<z>", "user@example.net/ünï"}
 	assigned := []string{"user@example.net/home", "user@example.net/srv-assigned", "other@example.org/x", "user@example.net", "", "a@@b", "user@example.net/q'\"&<"}
@@ -1357,6 +1473,24 @@ func replayLine(r *common.Run, l string) error {
 			res = un(f[4])
 		}
 		runBindServer(r, f[1] == "1", un(f[2]), un(f[3]), res, f[5], un(f[6]), "replay")
+		return nil
+	case f[0] == "nege" && len(f) >= 11:
+		var hs []string
+		for _, t := range f[10:] {
+			i := strings.Index(t, "|")
+			if i < 0 {
+				return fmt.Errorf("bad header field %q", t)
+			}
+			hs = append(hs, un(t[:i]))
+		}
+		c := negCase{recv: f[1] == "r", ws: f[2] == "1", s2s: f[3] == "1", loc: un(f[4]), orig: un(f[5]), hdrs: hs, env: true, tee: f[7] == "1", budget: -1, cancel: -1}
+		if f[8] != "-" {
+			fmt.Sscanf(f[8], "%d", &c.budget)
+		}
+		if f[9] != "-" {
+			fmt.Sscanf(f[9], "%d", &c.cancel)
+		}
+		runNeg(r, c, "replay")
 		return nil
 	case f[0] == "neg" && len(f) >= 8:
 		var hs []string
